@@ -64,7 +64,7 @@ static void sub_adapter() {
 }
 
 static void sub_solves() {
-    long N = vf::tier(90, 1500); const size_t MAXIT = 300;
+    long N = vf::tier(90, 900); const size_t MAXIT = 300;
     for (long idx = 0; idx < N; ++idx) {
         if (!vf::selected("complex_solves", idx)) continue;
         Rng r(vf::case_seed("complex_solves", idx)); bool small = idx % 2 == 0; bool herm = idx % 3 != 2; std::string bn;
